@@ -735,6 +735,27 @@ int main(int argc, char** argv)
         LS[0].limit = SLICE;
         drive<true>(c, "al 16 L 0 a", g, nops);
     }
+    { // an adapter with state of its own that is move-ASSIGNED: the target releases what the source handed out with the
+      // parameters of the original request (aligned_allocator: the minimum alignment travels with the assignment)
+        for (auto mins : {std::pair<std::size_t, std::size_t>{8, 64}, {64, 8}, {16, 16}, {1, 32}})
+        {
+            LS[0] = LeafState{};
+            SERVED.clear();
+            begin_op();
+            aligned_allocator<L0a> src(mins.first, L0a{}), dst(mins.second, L0a{});
+            void*                  p = src.allocate_node(24, 4);
+            void*                  q = src.allocate_array(3, 8, 2);
+            void*                  r = dst.allocate_node(16, 1);
+            dst.deallocate_node(r, 16, 1);
+            dst = std::move(src);
+            if (dst.min_alignment() != mins.first)
+                fail(fmt("aligned_allocator move assignment: min_alignment() is %zu, the source had %zu", dst.min_alignment(), mins.first));
+            dst.deallocate_array(q, 3, 8, 2);
+            dst.deallocate_node(p, 24, 4);
+            if (!SERVED.empty())
+                fail("aligned_allocator move assignment: leaf allocations never released");
+        }
+    }
     {
         tracked_allocator<Tracker, L0n> c(Tracker{}, L0n{});
         drive<true>(c, "tr L 0 n", g, nops);
